@@ -764,7 +764,8 @@ def m_extend(c):
         tgt.elems.extend(clone_value(c.st, x) for x in s.items(c.st))
         return UNIT
     it = to_iter(c.st, c.args[1])
-    return c.native('extend', {'it': it, 'tgt': tgt, 'stage': 0})
+    # `Extend<&T> for Vec<T: Copy>` (e.g. stack.extend(&set)): the elements are copied out of the references
+    return c.native('extend', {'it': it, 'tgt': tgt, 'stage': 0, 'copy_refs': 'Extend<&' in c.callee})
 
 
 @cont('extend')
@@ -779,7 +780,9 @@ def k_extend(st, fr, rv):
     tgt = d['tgt']
     if isinstance(tgt, Seq):
         tgt.force(st)
-        tgt.elems.append(deref(st, v) if False else v)
+        if d.get('copy_refs') and isinstance(v, Ptr):
+            v = v.load(st)
+        tgt.elems.append(v)
     elif isinstance(tgt, Map):
         if tgt.is_set:
             map_insert(st, tgt, v, UNIT)
